@@ -26,13 +26,14 @@ CONSTANTS Towers, Locators,
 VARIABLES st, depth
 vars == <<st, depth>>
 
-\* Every tower has its own numbers, and every receipt carries a different expiry, start and address, so that a stale
-\* copy or a row of the wrong tower is visible.
+\* Every receipt of a tower carries a different expiry, start and address (a stale copy is visible), the starts, addresses
+\* and slots of different towers differ (a row of the wrong tower is visible), and the expiries of different towers DO
+\* collide after renewals (towers registered at the same height expire together: look-ups keyed by expiry alone are wrong).
 TIdx(t) == IF t = "t1" THEN 1 ELSE IF t = "t2" THEN 2 ELSE 3
 S0(t) == 1 + TIdx(t)                  \* slots of a first registration
-E0(t) == 10 * (TIdx(t) - 1) + 1       \* its expiry
-StartOf(e) == 100 + e
-PortOf(e)  == 9000 + e
+E0(t) == TIdx(t)                      \* its expiry
+StartOf(t, e) == 100 * TIdx(t) + e
+PortOf(t, e)  == 9000 + 10 * TIdx(t) + e
 Less1(n) == IF n > 0 THEN n - 1 ELSE 0
 
 GhostLocator == CHOOSE l \in Locators : TRUE
@@ -49,7 +50,7 @@ Do(op) ==
           /\ (Emit => PrintT(<<"EDGE", ToJson([from |-> st, op |-> op, to |-> s2,
                                                dev |-> IF s2 = OpIntended(st, op) THEN "" ELSE "S16"])>>))
 
-RegOp(t, s, e) == [k |-> "register", t |-> t, port |-> PortOf(e), slots |-> s, start |-> StartOf(e), expiry |-> e]
+RegOp(t, s, e) == [k |-> "register", t |-> t, port |-> PortOf(t, e), slots |-> s, start |-> StartOf(t, e), expiry |-> e]
 WithRes(op) == [k |-> op.k, t |-> op.t, port |-> op.port, slots |-> op.slots, start |-> op.start, expiry |-> op.expiry,
                 res |-> OpResults(st, op)]
 
